@@ -34,7 +34,7 @@ func TestMain(m *testing.M) {
 
 // Op is one step of a sequential script.
 type Op struct {
-	Kind   string `json:"kind"`   // get | set | setbad | settyped | update | updatebad | subscribe | rawget | set2 | update2 | subscribe2 (the twin object)
+	Kind   string `json:"kind"`   // get | set | setbad | settyped | update | updatebad | subscribe | unsubscribe | rawget | stats | trace | set2 | update2 | subscribe2 (the twin object)
 	Client int    `json:"client"` // which client session
 	Value  int32  `json:"value"`
 	ByID   bool   `json:"by_id,omitempty"`   // settyped: address the property by id instead of name
@@ -76,7 +76,7 @@ func genCase(t *rapid.T) Case {
 	n := rapid.IntRange(3, 25).Draw(t, "n")
 	for i := 0; i < n; i++ {
 		op := Op{Client: rapid.IntRange(0, c.Clients-1).Draw(t, "client")}
-		op.Kind = rapid.SampledFrom([]string{"get", "get", "set", "set", "setbad", "settyped", "settyped", "update", "updatebad", "subscribe", "rawget", "set2", "update2", "subscribe2"}).Draw(t, "kind")
+		op.Kind = rapid.SampledFrom([]string{"get", "get", "set", "set", "setbad", "settyped", "settyped", "update", "updatebad", "subscribe", "rawget", "set2", "update2", "subscribe2", "stats", "trace", "unsubscribe", "subscribe"}).Draw(t, "kind")
 		switch op.Kind {
 		case "set", "update", "set2", "update2":
 			op.Value = rapid.Int32Range(0, 1<<30).Draw(t, "v")
@@ -85,6 +85,9 @@ func genCase(t *rapid.T) Case {
 		case "settyped":
 			op.ValHex, op.Desc = wrongTyped(t)
 			op.ByID = rapid.Bool().Draw(t, "byid")
+		case "stats", "trace":
+			// statistics / tracing of the object switched on (1) or off (0)
+			op.Value = rapid.SampledFrom([]int32{1, 1, 0}).Draw(t, "onoff")
 		}
 		c.Ops = append(c.Ops, op)
 	}
@@ -94,6 +97,7 @@ func genCase(t *rapid.T) Case {
 const bound = 10 * time.Second
 
 type subscriber struct {
+	cancel   func()
 	ch       chan int32
 	mu       sync.Mutex
 	received []int32
@@ -309,6 +313,15 @@ func checkCase(c Case) error {
 			if err := bomb.Helper.UpdateDelay(op.Value); err == nil {
 				return vt.Violationf("C14:invalid-write-accepted", "step %d: service-side UpdateDelay(%d) was accepted although the validator rejects negatives", i, op.Value)
 			}
+		case "stats", "trace":
+			action := uint32(81)
+			if op.Kind == "trace" {
+				action = 85
+			}
+			if f, ok := cl.raw.CallWait(sid, 1, action, []byte{byte(op.Value & 1)}, bound); !ok || f.Type != netkit.Reply {
+				return vt.Violationf("C14:setup", "step %d: %s(%d) answered %v", i, op.Kind, op.Value, f)
+			}
+			vt.Label("stats-or-trace-toggled")
 		case "set2":
 			if err := cl.proxy2.SetDelay(op.Value); err != nil {
 				return vt.Violationf("C14:valid-write-rejected", "step %d: SetDelay(%d) on the second object failed: %v", i, op.Value, err)
@@ -335,13 +348,23 @@ func checkCase(c Case) error {
 			if len(cl.subs) >= 2 {
 				continue
 			}
-			_, ch, err := cl.proxy.SubscribeDelay()
+			cancel, ch, err := cl.proxy.SubscribeDelay()
 			if err != nil {
 				return vt.Violationf("C14:subscribe-error", "step %d: SubscribeDelay failed: %v", i, err)
 			}
-			s := &subscriber{ch: ch}
+			s := &subscriber{ch: ch, cancel: cancel}
 			go s.run()
 			cl.subs = append(cl.subs, s)
+		case "unsubscribe":
+			// the most recent subscriber of this client leaves (everything due to
+			// it has been checked after the previous step); the others stay
+			if len(cl.subs) == 0 {
+				continue
+			}
+			last := cl.subs[len(cl.subs)-1]
+			cl.subs = cl.subs[:len(cl.subs)-1]
+			last.cancel()
+			vt.Label("subscriber-left")
 		}
 		// after every step: the register holds the model value, with the declared type
 		v, err := clients[0].proxy.GetDelay()
@@ -509,6 +532,35 @@ func checkConc(c ConcCase) error {
 			}
 		}(wi, ops)
 	}
+	// Meanwhile other subscribers come and go: the workers' raw connections
+	// register and unregister for the change events over and over. Each write
+	// carries a value of its own, so no registration may ever see one twice.
+	stopChurn := make(chan struct{})
+	var churn sync.WaitGroup
+	for wi := range c.Workers {
+		churn.Add(1)
+		go func(wi int) {
+			defer churn.Done()
+			rc := clients[wi].raw
+			for k := 0; ; k++ {
+				select {
+				case <-stopChurn:
+					return
+				default:
+				}
+				payload := binary.LittleEndian.AppendUint32(nil, 1)
+				payload = binary.LittleEndian.AppendUint32(payload, 101)
+				payload = binary.LittleEndian.AppendUint64(payload, uint64(700000+1000*wi+k%1000))
+				if f, ok := rc.CallWait(sid, 1, 0, payload, bound); !ok || f.Type != netkit.Reply {
+					return
+				}
+				time.Sleep(time.Duration(50*(k%4)) * time.Microsecond)
+				if f, ok := rc.CallWait(sid, 1, 1, payload, bound); !ok || f.Type != netkit.Reply {
+					return
+				}
+			}
+		}(wi)
+	}
 	close(start)
 	done := make(chan struct{})
 	go func() { wg.Wait(); close(done) }()
@@ -516,6 +568,20 @@ func checkConc(c ConcCase) error {
 	case <-done:
 	case <-time.After(2 * bound):
 		return vt.Violationf("C14:hang", "concurrent property operations did not finish within %v", 2*bound)
+	}
+	close(stopChurn)
+	churn.Wait()
+	for wi := range c.Workers {
+		seen := map[uint64]bool{}
+		for _, f := range clients[wi].raw.Frames() {
+			if f.Type == netkit.Event && f.Service == sid && f.Action == 101 && len(f.Payload) == 4 {
+				key := uint64(f.ID)<<32 | uint64(binary.LittleEndian.Uint32(f.Payload))
+				if seen[key] {
+					return vt.Violationf("C14:events:duplicate", "a subscriber which came and went while others wrote received the change event of value %d twice for one registration (message id %d)", int32(binary.LittleEndian.Uint32(f.Payload)), f.ID)
+				}
+				seen[key] = true
+			}
+		}
 	}
 	res := porcupine.CheckOperationsTimeout(registerModel, history, 20*time.Second)
 	if res == porcupine.Illegal {
